@@ -24,6 +24,7 @@ type RouteSpec struct {
 	Scope   int64 // 0 unset
 	ExtName string
 	Label   string
+	Late    bool // registered on the live mux by a task, after Run has started (C03)
 }
 
 type Script struct {
@@ -151,6 +152,7 @@ type CoreCfg struct {
 	Addr           string
 	Malformed      bool // Addr is malformed: Run must fail
 	BusyPort       bool // the port is already bound when Run starts
+	BusyReuse      bool // ... by a socket that has SO_REUSEPORT set (as another server process might)
 
 	Routes     []RouteSpec
 	HasDefault bool
@@ -185,6 +187,12 @@ type Core struct {
 	runRet      bool
 	runErr      string
 	stopCalls   int
+	stopAt      map[int]time.Time // simulated time at which the n-th Stop was invoked
+	stopMark    map[int][2]int    // quiescence and clock-jump counters at that moment
+	quiesceN    int
+	lateStart   int64 // step at which the late routes began to be registered (0: not yet)
+	lateDone    int64 // step at which all of them were registered
+	jumps       int
 	stopRets    int
 	stopErr     string
 	stopStep    int
@@ -307,6 +315,44 @@ type nilErr struct{ msg string }
 
 func (e *nilErr) Error() string { return e.msg }
 
+// register adds route i of the configuration to the mux.
+func (c *Core) register(mux *gldap.Mux, i int) {
+	rt := c.Cfg.Routes[i]
+	var ro []gldap.Option
+	ro = append(ro, gldap.WithLabel(rt.Label))
+	var err error
+	switch rt.Kind {
+	case "bind":
+		err = mux.Bind(c.handler(i), ro...)
+	case "search":
+		if rt.BaseDN != "" {
+			ro = append(ro, gldap.WithBaseDN(rt.BaseDN))
+		}
+		if rt.Filter != "" {
+			ro = append(ro, gldap.WithFilter(rt.Filter))
+		}
+		if rt.Scope != 0 {
+			ro = append(ro, gldap.WithScope(gldap.Scope(rt.Scope)))
+		}
+		err = mux.Search(c.handler(i), ro...)
+	case "extended":
+		err = mux.ExtendedOperation(c.handler(i), gldap.ExtendedOperationName(rt.ExtName), ro...)
+	case "modify":
+		err = mux.Modify(c.handler(i), ro...)
+	case "add":
+		err = mux.Add(c.handler(i), ro...)
+	case "delete":
+		err = mux.Delete(c.handler(i), ro...)
+	case "default":
+		err = mux.DefaultRoute(c.handler(i))
+	case "unbind":
+		err = mux.Unbind(c.handler(i))
+	}
+	if err != nil {
+		panic("sim: route registration: " + err.Error())
+	}
+}
+
 func (c *Core) onClose(id int) {
 	simrt.Emit("onclose-enter", id, 0, 0, 0, "", nil)
 	if c.Cfg.OnClose == 2 {
@@ -354,40 +400,13 @@ func (c *Core) Setup(s *Sim) {
 	if err != nil {
 		panic("sim: NewMux: " + err.Error())
 	}
+	anyLate := false
 	for i, rt := range cfg.Routes {
-		var ro []gldap.Option
-		ro = append(ro, gldap.WithLabel(rt.Label))
-		var err error
-		switch rt.Kind {
-		case "bind":
-			err = mux.Bind(c.handler(i), ro...)
-		case "search":
-			if rt.BaseDN != "" {
-				ro = append(ro, gldap.WithBaseDN(rt.BaseDN))
-			}
-			if rt.Filter != "" {
-				ro = append(ro, gldap.WithFilter(rt.Filter))
-			}
-			if rt.Scope != 0 {
-				ro = append(ro, gldap.WithScope(gldap.Scope(rt.Scope)))
-			}
-			err = mux.Search(c.handler(i), ro...)
-		case "extended":
-			err = mux.ExtendedOperation(c.handler(i), gldap.ExtendedOperationName(rt.ExtName), ro...)
-		case "modify":
-			err = mux.Modify(c.handler(i), ro...)
-		case "add":
-			err = mux.Add(c.handler(i), ro...)
-		case "delete":
-			err = mux.Delete(c.handler(i), ro...)
-		case "default":
-			err = mux.DefaultRoute(c.handler(i))
-		case "unbind":
-			err = mux.Unbind(c.handler(i))
+		if rt.Late {
+			anyLate = true
+			continue
 		}
-		if err != nil {
-			panic("sim: route registration: " + err.Error())
-		}
+		c.register(mux, i)
 	}
 	c.mux = mux
 	if err := srv.Router(mux); err != nil {
@@ -397,7 +416,11 @@ func (c *Core) Setup(s *Sim) {
 		c.beheraCtor(s)
 	}
 	if cfg.BusyPort {
-		if _, err := simrt.Listen("tcp", ":389"); err != nil {
+		hold := simrt.Listen
+		if cfg.BusyReuse {
+			hold = simrt.ListenReusePort
+		}
+		if _, err := hold("tcp", ":389"); err != nil {
 			panic("sim: cannot pre-bind the port: " + err.Error())
 		}
 		s.Fault("F14-port-already-bound")
@@ -407,6 +430,18 @@ func (c *Core) Setup(s *Sim) {
 		c.invokeStop(s)
 	}
 	c.startRun(s)
+	if anyLate {
+		s.W.Go("late-routes", func() {
+			simrt.Park("task", "late-routes", nil)
+			simrt.Emit("late-reg", 0, 0, 0, 0, "start", nil)
+			for i, rt := range cfg.Routes {
+				if rt.Late {
+					c.register(mux, i)
+				}
+			}
+			simrt.Emit("late-reg", 0, 0, 1, 0, "done", nil)
+		})
+	}
 	if cfg.ReadyPoll {
 		s.W.Go("ready", func() {
 			for i := 0; i < 64; i++ {
@@ -454,6 +489,10 @@ func (c *Core) startRun(s *Sim) {
 func (c *Core) invokeStop(s *Sim) {
 	c.stopCalls++
 	n := c.stopCalls
+	if c.stopAt == nil {
+		c.stopAt, c.stopMark = map[int]time.Time{}, map[int][2]int{}
+	}
+	c.stopAt[n], c.stopMark[n] = time.Now(), [2]int{c.quiesceN, c.jumps}
 	if c.stopStep == 0 {
 		c.stopStep = s.Steps + 1
 	}
@@ -699,6 +738,7 @@ func (c *Core) noteStep(s *Sim, cl *Client, perform bool) {
 	case stWait:
 		s.Logf("%s lets %v pass", cl.name(), st.Dur)
 		s.Fault("F11-client-waits-mid-frame")
+		c.jumps++
 		s.Sleep(st.Dur)
 	}
 	if cl.pc == len(cl.Steps) {
@@ -740,6 +780,7 @@ func (c *Core) faultActions(s *Sim, acts []Action) []Action {
 			s.Logf("FAULT clock jumps %v", d)
 			s.Fault("F11-clock-jump")
 			c.faultsLeft--
+			c.jumps++
 			s.Sleep(d)
 		}})
 	}
@@ -876,8 +917,16 @@ func (c *Core) OnEvent(s *Sim, e *simrt.Event) {
 	case "run-ret":
 		c.runRet, c.runErr = true, e.S
 		c.checkBoth(s)
+	case "late-reg":
+		if e.A == 0 {
+			c.lateStart = e.Step
+		} else {
+			c.lateDone = e.Step
+			s.Probe("C03-routes-registered-on-live-mux")
+		}
 	case "stop-ret":
 		c.stopRets++
+		c.onStopRet(s, int(e.A))
 		if e.S != "" {
 			c.stopErr = e.S
 		}
@@ -902,6 +951,7 @@ func (c *Core) OnEvent(s *Sim, e *simrt.Event) {
 }
 
 func (c *Core) Quiescent(s *Sim) bool {
+	c.quiesceN++
 	if c.held {
 		c.held = false
 		c.checkpoint = true
